@@ -2,6 +2,7 @@
 from mirq.prov import subterms, term_str, strip_wrap, strip_clone
 from mirq.report import short, AnchorMissing
 from rules.pipe import _pipe, _loop_of
+from mirq.program import Site
 
 HOOKS = ("before_reduce", "before_effect", "before_dispatch")
 # expected flag write on Ok(DoneAction): which phase the flag guards
@@ -342,3 +343,43 @@ def mw5_hooks_on_every_action(ctx, rep):
                       "with a non-empty middleware list%s every action reaches the %s hooks" % (" and a Dispatch answer" if hook == "before_dispatch" else "", hook),
                       "the %s hooks can be bypassed although middlewares are registered%s" % (hook, " and the reducers answered Dispatch" if hook == "before_dispatch" else ""))
     rep.floor(R, "hook sites", n, 3)
+
+
+def n4_notify_phase_not_bypassed(ctx, rep):
+    """in the world where the chain's notify flag is true and no before_dispatch hook vetoed,
+    every received action reaches the subscriber loop (or an emptiness test of the list): no
+    other way around it, e.g. giving up on a busy list lock"""
+    R = "N4"
+    A = ctx.A
+    P = _pipe(ctx)
+    G = P.G
+    from rules.pipe import n2_flag_edges
+    from mirq.report import Report
+    if not getattr(ctx, "_phase_flags", None):
+        mw_table(ctx, Report("scratch"))
+    te, fe = n2_flag_edges(ctx)
+    forbid = list(fe)
+    pf = getattr(ctx, "_phase_flags", {}).get("before_dispatch")
+    if pf is not None:
+        t2, f2, _w = flag_guard_edges(ctx, G, pf[0], pf[1])
+        forbid += f2
+    rep.check(bool(fe), R, "chain-flag-located", "", "branches on the chain's notify flag located", "no branch on the chain's notify flag found")
+    n = 0
+    for k, s in P.ev.get("NOTIFY", []):
+        n += 1
+        bp = ctx.prog.bp(s.body)
+        nx = [st for st in subterms(bp.arg_term(s.bb, 0)) if st[0] == "call" and st[2] == "std::iter::Iterator::next" and st[1][0] == s.body.path]
+        marker = {k}
+        if nx:
+            marker = {(k[0], s.body.path, nx[0][1][1])}
+        for nk, nn in G.nodes.items():
+            tt = nn.body.blocks[nn.bb]["term"]
+            if tt["k"] == "call":
+                ss = Site(nn.body, nn.bb, tt)
+                if ss.ck in ("std::vec::Vec::is_empty", "std::vec::Vec::len") and "Subscriber<" in ((ss.fn.get("args") or [""])[0]):
+                    marker.add(nk)
+        r = G.reach_corr(P.recv, avoid=marker, after=True, forbid_edges=forbid)
+        rep.check(not (r & set(P.recv)), R, "notify-phase-not-bypassed", s.where,
+                  "with a Dispatch answer and no veto every action reaches the subscriber loop",
+                  "the subscriber loop can be bypassed although the reducers answered Dispatch and no hook vetoed (e.g. the list lock was busy): subscribers miss that action")
+    rep.floor(R, "direct notify sites", n, 1)
